@@ -152,8 +152,13 @@ def run(ctx):
                                                            allow_violation=True, workers=2))
         f_simb = ex.submit(job, "simb", lambda c: c.tlc_simulate("LastPoint", "LastPoint_sim.cfg", num=nb, depth=30))
         f_simv = ex.submit(job, "simv", lambda c: c.tlc_simulate("LastVoteproofs", "LastVoteproofs_sim.cfg", num=nb, depth=9))
+        names = [("dump", f_dump), ("lvmc", f_mc), ("lvcand", f_cand), ("simb", f_simb), ("simv", f_simv)]
+        if not quick:
+            # vacuity: a backward step and a majority-replaces-non-majority step must exist in the model
+            names.append(("vac", ex.submit(job, "vac", lambda c: c.tlc("LastPoint", "LastPoint_vac.cfg", timeout=900, workers=2,
+                                                                      args=["-continue"], allow_violation=True))))
         done = {}
-        for name, f in (("dump", f_dump), ("lvmc", f_mc), ("lvcand", f_cand), ("simb", f_simb), ("simv", f_simv)):
+        for name, f in names:
             out, sub = f.result()
             done[name] = out
             ctx.states += sub.states
@@ -161,6 +166,12 @@ def run(ctx):
             ctx.tlc_cmds += sub.tlc_cmds
             shutil.rmtree(sub.work, ignore_errors=True)
         f_rel.result()
+
+    if "vac" in done:
+        seen = set(re.findall(r"Action property (\w+) is violated", done["vac"].out))
+        if seen != {"NeverBack", "NeverReplace"}:
+            raise core.MachineryError("vacuity: the model has no %s step" % ({"NeverBack", "NeverReplace"} - seen))
+        ctx.extra["vacuity_checked"] = "backward (suffrage-confirm) steps and majority-over-non-majority steps exist in LastPoint.tla"
 
     # ---- 1. the model against the statement + dump of every (last, cand) state
     r, steps = done["dump"]
